@@ -65,3 +65,13 @@ Definition gen_private_exp : bool :=
   sk_before gen_skeleton "StationaryVelocityFieldTransform.grid_" "call:shallow_copy(self.exp)" "set:exp.align_corners=grid.align_corners()"
   && sk_before gen_skeleton "StationaryVelocityFieldTransform.grid_" "set:exp.align_corners=grid.align_corners()" "set:self.exp=exp"
   && negb (sk_has gen_skeleton "StationaryVelocityFieldTransform.grid_" "set:self.exp.align_corners=grid.align_corners()").
+
+(* GenericSpatialTransform.inverse replaces `params` (the callable producing the member parameters) ONLY when
+   link=True; without link the shallow copy keeps the callable, so its update() re-runs it; and update() writes
+   the predicted parameters into the members before it cascades *)
+Definition gen_generic_inverse_ok : bool :=
+  sk_before gen_skeleton "GenericSpatialTransform.inverse" "if:link" "set:inv.params=self"
+  && sk_before gen_skeleton "GenericSpatialTransform.inverse" "set:inv.params=self" "endif"
+  && Nat.eqb (List.length (sk_body gen_skeleton "GenericSpatialTransform.inverse")) 5
+  && sk_before gen_skeleton "GenericSpatialTransform.update" "call:self._data()" "call:transform.data_(p)"
+  && sk_before gen_skeleton "GenericSpatialTransform.update" "call:transform.data_(p)" "call:super().update()".
